@@ -26,6 +26,8 @@ pub const MAP_ANONYMOUS: c_int = 0x20;
 pub const MAP_ANON: c_int = 0x1000; // macOS value; only used by the macOS variant
 pub const MAP_JIT: c_int = 0x0800; // macOS value
 pub const MAP_FAILED: *mut c_void = !0 as *mut c_void;
+pub const MAP_FIXED: c_int = 0x10;
+pub const MAP_FIXED_NOREPLACE: c_int = 0x100000;
 // macOS names (a64-macos variant; compile-only except mmap/munmap)
 pub type mach_vm_address_t = u64;
 pub type vm_prot_t = i32;
@@ -551,7 +553,7 @@ pub unsafe fn mmap(
     addr: *mut c_void,
     len: size_t,
     prot: c_int,
-    _flags: c_int,
+    flags: c_int,
     _fd: c_int,
     _off: off_t,
 ) -> *mut c_void {
@@ -563,6 +565,21 @@ pub unsafe fn mmap(
     assert!(len > 0 && len <= sim::RLEN, "MODEL: trampoline length outside the modelled block");
     let maplen = sim::page_ceil(len as u64);
     let hint = addr as u64;
+    if flags & MAP_FIXED != 0 && flags & MAP_FIXED_NOREPLACE == 0 {
+        // MAP_FIXED places the mapping at exactly `addr` and silently REPLACES whatever is mapped
+        // there.  The injector holds nothing at an address it has not currently mapped, and what the
+        // program keeps there is the environment's choice (C03/C11 quantify over every occupancy of
+        // the neighbourhood): known occupants collide, unknown ones are an arbitrary boolean.
+        if hint == 0 || hint & (sim::S.PAGE - 1) != 0 {
+            return MAP_FAILED; // EINVAL
+        }
+        let occupied = sim::collides(hint, maplen) || nondet_bool();
+        assert!(
+            !occupied,
+            "VERIF[C03]: mmap(MAP_FIXED) at an address the injector does not hold replaces whatever the program has mapped there (memory that was never designated)"
+        );
+        return new_mapping(hint, len, prot);
+    }
     if sim::S.ALLOC_STRICT {
         assert!(
             sim::live_jits() == 0,
